@@ -155,7 +155,9 @@ def _host_config(cfg) -> dict:
 
 
 # -- several animations on one host display: histories of animate() calls interleaved with ticks ----------------
-MULTI_MENU = [("blink", 0, "ab", False), ("scroll", 1, "abcdef", True), ("scroll", 1, "xy", False), ("typewriter", 0, "abc", False), ("bounce", 1, "q", True), ("blink", 0, "zz", True)]
+MULTI_MENU = [("blink", 0, "ab", False), ("scroll", 1, "abcdef", True), ("scroll", 1, "xy", False), ("typewriter", 0, "abc", False), ("bounce", 1, "q", True), ("blink", 0, "zz", True),
+              ("typewriter", 0, "", True), ("scroll", 0, "", False)]
+MULTI_BOUND = max(bound_steps(len(m[2]), 4) for m in MULTI_MENU) + 2
 
 
 def _host_multi(args) -> dict:
@@ -229,6 +231,17 @@ def _host_multi(args) -> dict:
                 stuck = [k for k in looping if k not in moved and len(looping[k]) > 0]
                 if stuck:
                     err = f"looping animation(s) {stuck} do not advance on three on-time ticks"
+            if err is None and any(st.active and not st.loop for st in lcd.animations.values()):
+                # termination: whatever else runs on the display, every non-looping animation is finished after
+                # a bounded number of on-time ticks
+                probe = copy.deepcopy(lcd)
+                t = now
+                for _ in range(MULTI_BOUND):
+                    t += 100
+                    probe.tick(t)
+                left = [k for k, st in probe.animations.items() if st.active and not st.loop]
+                if left:
+                    err = f"non-looping animation(s) {left} still active after {MULTI_BOUND} on-time ticks"
         if err is not None:
             violation = {"subject": f"host-multi:{first}", "history": [list(h) for h in hist], "message": err}
             break
@@ -391,6 +404,27 @@ def gen_device(tier: str) -> Iterator[dict]:
         case = dict(case, id="S" + case["id"][1:], space="S")
         case["runs"] = [dict(r, adv=[120] * r["passes"]) for r in case["runs"]]
         yield case
+    # power commands (display / backlight / brightness, constant and run-time arguments) given after the start, before
+    # the loop or on its third pass, on a parallel display with a backlight pin and on an I2C display: a dark panel keeps
+    # being advanced exactly as a lit one
+    power_ops = ["lcd.backlight(False)", "lcd.display(False)", "lcd.backlight(flag)", "lcd.display(flag)", "lcd.backlight(False)\nlcd.display(False)", "lcd.brightness(0)", "lcd.backlight(False)\nlcd.backlight(True)"]
+    for style in STYLES:
+        for wiring in ("parallel-bl", "i2c"):
+            for oi, op in enumerate(power_ops):
+                if "brightness" in op and wiring == "i2c":
+                    continue
+                for where in ("setup", "pass3"):
+                    for loop in (False, True):
+                        decl = "lcd = LCD(i2c_addr=39, cols=4, rows=2)" if wiring == "i2c" else "lcd = LCD(rs=30, en=31, d4=32, d5=33, d6=34, d7=35, cols=4, rows=2, backlight_pin=10)"
+                        setup = [decl, 'lcd.line(1, "ZZZZ")', 'flag = analog_read("A0") > 5', "n = 0", f'lcd.animate("{style}", 0, "abcdef", speed_ms=100, loop={loop})']
+                        opl = op.split("\n")
+                        body = ["n += 1"] + (["if n == 3:"] + ["    " + o for o in opl] if where == "pass3" else []) + ["mon.write(n)"]
+                        if where == "setup":
+                            setup += opl
+                        horizon = bound_steps(6, 4) + 4
+                        yield {"id": f"AP:{style}:{wiring}:{oi}:{where}:loop{int(loop)}", "space": "A", "src": common.script(setup, body, prologue=PRO),
+                               "runs": [{"passes": len(sch), "adv": sch, "t0": 0, "ar": {"A0": [0]}} for sch in schedules(horizon, 100, 1, False)],
+                               "anims": [{"style": style, "len": 6, "loop": loop, "speed": 100, "row": 0}], "geom": [4, 2], "lcds": 1, "min_steps": 0 if loop else (1 if style in ("blink", "bounce") else 2), "frames_only": True}
     for style in STYLES:
         cont = anim_script(style, "abcdef", 4, 2, True, 100, extra=["n = 0"], body=["n += 1", "if n % 2 == 0:", "    continue", "mon.write(n)"])
         yield {"id": f"AC:{style}:continue", "space": "A", "src": cont, "runs": [{"passes": len(s), "adv": s, "t0": 0} for s in schedules(16, 100, 1, False)],
@@ -435,7 +469,7 @@ def device_monitor(case, run, dr) -> Optional[str]:
             return f"pass {p}: {len(ticks)} animation ticks, but {len(looping)} looping animations must be advanced every pass"
         if len(anims) == 1:
             a = anims[0]
-            lcd_events = [ev for ev in evs if ev.kind == "lcd"]
+            lcd_events = [ev for ev in evs if ev.kind == "lcd" and (not case.get("frames_only") or (len(ev.args) > 1 and ev.args[1] in ("print", "setCursor", "write")))]
             on_time = a["speed"] == 0 or last_step_time is None or last_step_time == 0 or clock - last_step_time >= a["speed"]
             if a["loop"] and a["len"] > 0 and on_time and not lcd_events:
                 return f"pass {p} (t={clock}): looping animation due for a step but nothing was drawn"
@@ -446,6 +480,8 @@ def device_monitor(case, run, dr) -> Optional[str]:
                 steps += 1
                 if not a["loop"] and steps > bound_steps(a["len"], case["geom"][0]) :
                     return f"non-looping animation still drawing after {steps} steps (bound {bound_steps(a['len'], case['geom'][0])})"
+    if steps < case.get("min_steps", 0):
+        return f"the animation drew {steps} frame(s) in {run['passes']} passes (at least {case['min_steps']} expected before it can finish)"
     return None
 
 
